@@ -4,7 +4,7 @@ inner/outer/restart counters, early inner exit on the Givens estimate, explicit 
 of every cycle).  Status `0` is only ever returned after the *explicitly recomputed* residual of the
 returned iterate passed the test, so "status 0 ⇒ criterion" needs no Arnoldi/Givens invariant; the
 iteration counter equals the number of recorded iterates unless it is incremented after the early
-`break` (`late`, `_fgmres.py`).  Core Lean only. -/
+`break` (`late`; `_fgmres.py` before 925d7a0, no file any more).  Core Lean only. -/
 namespace PyamgV.C06
 
 theorem gInner_spec (late : Bool) (gtest : Nat → Bool) (maxInner base : Nat) :
